@@ -244,6 +244,9 @@ func modelCorrespondence(run *common.Run, drv *common.Driver, results []resultT)
 			(r.c.Method == "AddAll" || r.c.Method == "Any" || len(r.c.Sig.Out) == 0 || r.c.Ctx == "defer" || r.c.Ctx == "stmt"):
 			// a Counter made by the script has no recorder: whether the variadic slice was nil or empty is not observed
 			run.Hit("model-predicts-unobservable-effect")
+		case cls == "" && !predOK && implOK && r.c.Rebind && strings.Contains(f["y"], "host-receiver-late"):
+			// not every method of the fixed host type reads or changes its receiver in an observable way
+			run.Hit("model-predicts-unobservable-effect")
 		case cls == "" && !predOK && implOK:
 			// the model, run with the facts of the current source, says this call goes wrong; the implementation is fine
 			run.Disagree(common.Disagreement{Kind: "impl-vs-model", Input: r.c, Impl: "agrees with the reference", Model: f["y"], Note: lines[j]})
